@@ -3,6 +3,7 @@ The Lean big-step semantics `Asl.run` is the specification; generated machines x
 plans are run on the real engine under the canonical schedule and compared on status / output /
 error name (Fail-state Cause compared, engine-generated Cause text masked)."""
 import json, copy
+from machgen import FN
 import common, machgen, enginerun
 from common import cj, pj
 
@@ -158,6 +159,47 @@ def small_limit_dist(chk, case, r, decisions):
         chk.dist("smalllimit.refused.%s.%s.%s" % (x["type"], x["error"].split(".")[-1], d.split("\t")[0]))
 
 
+def pipeline_matrix():
+    """directed cases: every state type that has the I/O pipeline x InputPath x ResultPath x OutputPath (x Retry once /
+    Catch for the ones that can fail) — the raw input, not the effective input, is what ResultPath, Retry and Catch work on"""
+    out = []
+    data = {"a": {"b": 1, "c": [2, 3]}, "keep": "me", "items": [1, 2], "r": "old"}
+    for kind in ("Pass", "Task", "Parallel", "Map"):
+        for ip in (None, "$.a"):
+            for rp in ("absent", "$.r", "$.a.new", None):
+                for op in (None, "$.a"):
+                    for handler in (("none",) if kind == "Pass" else ("none", "retry", "catch")):
+                        st = {"Type": kind, "Next": "Z"}
+                        plans = {}
+                        if kind == "Pass":
+                            st["Parameters"] = {"seen.$": "$"}
+                        elif kind == "Task":
+                            st["Resource"] = FN + "f"
+                        elif kind == "Parallel":
+                            st["Branches"] = [{"StartAt": "X", "States": {"X": {"Type": "Task", "Resource": FN + "f", "End": True}}},
+                                              {"StartAt": "Y", "States": {"Y": {"Type": "Pass", "End": True}}}]
+                        else:
+                            st["ItemsPath"] = "$.c" if ip else "$.items"
+                            st["Iterator"] = {"StartAt": "X", "States": {"X": {"Type": "Task", "Resource": FN + "f", "End": True}}}
+                        if kind != "Pass":
+                            plans = {"f": [("ok",)]}
+                            if handler == "retry":
+                                st["Retry"] = [{"ErrorEquals": ["Boom"], "IntervalSeconds": 1, "MaxAttempts": 1}]
+                                plans = {"f": [("err", "Boom", "m"), ("ok",)]}
+                            elif handler == "catch":
+                                st["Catch"] = [{"ErrorEquals": ["Boom"], "Next": "Z", "ResultPath": "$.caught"}]
+                                plans = {"f": [("err", "Boom", "m")]}
+                        if ip:
+                            st["InputPath"] = ip
+                        if rp != "absent":
+                            st["ResultPath"] = rp
+                        if op:
+                            st["OutputPath"] = op
+                        m = {"StartAt": "S", "States": {"S": st, "Z": {"Type": "Pass", "End": True}}}
+                        out.append({"machine": m, "input": data, "plans": plans})
+    return out
+
+
 def run(chk):
     quick = chk.tier == "quick"
     ok_lean = chk.lean_stage()
@@ -167,6 +209,7 @@ def run(chk):
     corpus = common.load_corpus("C01")
     for c in corpus:
         cases.append(c)
+    cases.extend(pipeline_matrix())
     for i in range(n):
         cases.append(gen_case(chk.rng, chk.rng.choice([0, 1, depth]), small=chk.rng.random() < SMALL_SHARE))
     extra, spans, asked = [], [], []
